@@ -56,8 +56,9 @@ CLASSES = (['tr-m-minus1:' + a for a in ('surf-tr', 'trcl-num', 'fill-num',
            + [f'facet-beyond:{k}' for k in MACRO_KINDS
               if k not in ('sph', 'ell')]
            + ['facet-on-plain', 'fill-array-short', 'fill-array-long',
-              'imp-unequal', 'imp-short', 'material-mixed-sign',
-              'lattice-arg-malformed'])
+              'imp-unequal', 'imp-short', 'lattice-arg-malformed']
+           + [f'material-mixed-sign:{b}-{w}' for b in ('pos', 'neg')
+              for w in ('first', 'mid', 'last')])
 _PER = {'quick': 3, 'thorough': 60}
 
 # parameter counts MCNP accepts for cards with optional entries
@@ -289,14 +290,23 @@ def build_pair(case):
         return deck, bad, f'imp:{parts} with {len(toks)} entries for ' \
             f'{len(deck.cells)} cells'
     if head == 'material-mixed-sign':
-        deck = c10.build(_Sub(case, rng.choice(['atom-massrho', 'many-entries',
-                                                'mass-massrho'])))
-        cands = [m for m in deck.mats if len(m.entries) >= 2]
-        if not cands:
+        base_sign, where = arg.split('-')
+        for _ in range(20):
+            deck = c10.build(_Sub(case, 'mass-massrho' if base_sign == 'neg'
+                                  else rng.choice(['atom-massrho',
+                                                   'many-entries'])))
+            cands = [m for m in deck.mats
+                     if len(m.entries) >= (3 if where == 'mid' else 2)
+                     and all(f.startswith('-') == (base_sign == 'neg')
+                             for _z, f in m.entries)]
+            if cands:
+                break
+        else:
             return None
         bad = copy.deepcopy(deck)
         mat = next(m for m in bad.mats if m.id == cands[0].id)
-        k = rng.randrange(len(mat.entries))
+        k = {'first': 0, 'last': len(mat.entries) - 1,
+             'mid': rng.randrange(1, max(2, len(mat.entries) - 1))}[where]
         zaid, frac = mat.entries[k]
         mat.entries[k] = (zaid, frac[1:] if frac.startswith('-')
                           else '-' + frac)
